@@ -20,7 +20,9 @@ na = []
 for p in props:
     pid = p["id"]
     if pid in CLAIMED:
-        c = CLAIMED[pid]
+        c = dict(CLAIMED[pid])
+        if 'cov={' in (ROOT / "vf" / "props" / f"{pid.lower()}.py").read_text():
+            c["technique"] += "; plus coverage-guided fuzzing (atheris/libFuzzer mutating the byte stream of the same Hypothesis strategies, odc.* instrumented, same oracle)"
         checks.append({
             "property_id": pid,
             "quick_cmd": f"{PY} -m vf.run {pid} --tier quick",
@@ -37,7 +39,7 @@ for p in props:
 
 man = {
     "version": 1,
-    "setup_cmd": "/venv/bin/python -c 'import hypothesis' 2>/dev/null || /venv/bin/pip install --no-index --find-links /opt/veriftools/wheels hypothesis",
+    "setup_cmd": "(/venv/bin/python -c 'import hypothesis' 2>/dev/null || /venv/bin/pip install --no-index --find-links /opt/veriftools/wheels hypothesis) && (/venv/bin/python -c 'import atheris' 2>/dev/null || /venv/bin/pip install --no-index --find-links /opt/veriftools/wheels atheris || echo 'atheris unavailable: coverage-guided sub-checks will be skipped')",
     "hooks": {
         "guard": "ODC_GEO_VERIF",
         "enable": "no hooks: checks import /repo's working tree directly (VERIF_REPO overrides the path) and instrument from outside by subclassing / attribute patching",
@@ -49,7 +51,7 @@ man = {
         "name": "vf",
         "path": "/verif/vf",
         "serves_properties": sorted(CLAIMED),
-        "kind_free_text": "Hypothesis 6.168 property-based testing (seeded, database=None) + exhaustive enumeration of finite sub-domains, sharded over subprocesses; explicit oracles (numpy/shapely/pyproj/GDAL references, exact rational models, round trips, metamorphic relations); JSON replay files",
+        "kind_free_text": "Hypothesis 6.168 property-based testing (seeded, database=None) + exhaustive enumeration of finite sub-domains, sharded over subprocesses; coverage-guided fuzzing (atheris 3.1 / libFuzzer driving the same strategies through Hypothesis' fuzz_one_input, odc.* bytecode instrumented) for sub-checks registered with cov=; explicit oracles (numpy/shapely/pyproj/GDAL references, exact rational models, round trips, metamorphic relations); JSON replay files",
     }],
     "checks": checks,
     "notes": "All checks: exit 0 held / exit 1 + VIOLATION line / exit 2 harness error. VERIF_SEED seeds every Hypothesis run; PYTHONHASHSEED is forced to 0. known_findings.json lists repaired (fixed) and recorded (known) defects.",
